@@ -22,9 +22,6 @@ func exploreTree(c *fw.Ctx, nsym, depth int, run func(h []int) (prune bool)) {
 				key = h[0]*nsym + h[1] + nsym
 			}
 			if c.Mine(key) {
-				c.State(1)
-				c.Trace(1)
-				c.Transition(len(h))
 				if run(h) {
 					return
 				}
